@@ -631,11 +631,30 @@ func ruleCipherTag(c *Ctx) {
 		})
 		if lk != nil {
 			okMiss, okHit := false, true
-			for _, r := range returnsOf(f) {
-				if facts.KnownNil(r.Block(), lk, true) && !isNilConst(resolve(r.Results[len(r.Results)-1])) {
-					okMiss = true
+			// every return reachable from the miss edge carries a (possibly) non-nil error
+			eachInstr(f, func(b *ssa.BasicBlock, _ int, in ssa.Instruction) {
+				iff, isIf := in.(*ssa.If)
+				if !isIf {
+					return
 				}
-			}
+				for si, sb := range b.Succs {
+					if !knownNilIn(factsOnEdge(facts, b, sb), lk, true) || facts.KnownNil(b, lk, true) {
+						continue
+					}
+					_ = si
+					_ = iff
+					all, n := true, 0
+					for _, r := range returnsReachableFrom(sb) {
+						n++
+						if isNilConst(resolve(r.Results[len(r.Results)-1])) {
+							all = false
+						}
+					}
+					if all && n > 0 {
+						okMiss = true
+					}
+				}
+			})
 			for _, ci := range Calls(f) {
 				if ci.Method != nil && (ci.Method.Name() == "Decrypt" || ci.Method.Name() == "DecryptReader") {
 					if !facts.KnownNil(ci.Block, lk, false) {
@@ -665,6 +684,8 @@ func ruleDecryptReaders(c *Ctx, ciphers []*types.Named, ciface *types.Interface)
 			switch {
 			case ci.Static != nil && (qualName(ci.Static) == "io/ioutil.ReadAll" || qualName(ci.Static) == "io.ReadAll"):
 				ra = ci.Instr
+			case ci.Static != nil && ci.Static.Pkg == nr.Pkg && ra == nil && (len(CallsTo(ci.Static, "io/ioutil.ReadAll"))+len(CallsTo(ci.Static, "io.ReadAll")) > 0):
+				ra = ci.Instr // a private helper that reads the whole stream
 			case ci.Method != nil && ci.Method.Name() == "Close" && cl == nil && ra != nil && dominates(ra, ci.Instr):
 				cl = ci.Instr
 			case ci.Method != nil && ci.Method.Name() == "Decrypt":
@@ -701,8 +722,18 @@ func ruleDecryptReaders(c *Ctx, ciphers []*types.Named, ciface *types.Interface)
 			if ci == nil {
 				return false
 			}
-			if ci.Method != nil && ci.Method.Name() == "Close" && resolve(ci.Recv()) == ssa.Value(stream) {
+			if closesOneOf(ci, []ssa.Value{stream}) {
 				return true
+			}
+			// a private helper that always closes the stream it is given
+			if ci.Static != nil && inModule(ci.Static) {
+				for i, a := range ci.Common.Args {
+					if resolve(a) == ssa.Value(stream) || unwrapChange(a) == ssa.Value(stream) {
+						if closesParamAlways(ci.Static, i) {
+							return true
+						}
+					}
+				}
 			}
 			// ownership passed on: the stream is an argument of another decrypting reader
 			if (ci.Method != nil && ci.Method.Name() == "DecryptReader") || (ci.Static != nil && ci.Static.Name() == "newReader") {
@@ -749,4 +780,41 @@ func constMakeLen(in ssa.Instruction) int64 {
 		}
 	}
 	return -1
+}
+
+func unwrapChange(v ssa.Value) ssa.Value {
+	for {
+		switch x := v.(type) {
+		case *ssa.ChangeInterface:
+			v = x.X
+		case *ssa.MakeInterface:
+			v = x.X
+		case *ssa.ChangeType:
+			v = x.X
+		default:
+			return v
+		}
+	}
+}
+
+// returnsReachableFrom: the returns reachable from block b.
+func returnsReachableFrom(b *ssa.BasicBlock) []*ssa.Return {
+	var out []*ssa.Return
+	seen := map[*ssa.BasicBlock]bool{}
+	stack := []*ssa.BasicBlock{b}
+	for len(stack) > 0 {
+		x := stack[len(stack)-1]
+		stack = stack[:len(stack)-1]
+		if seen[x] {
+			continue
+		}
+		seen[x] = true
+		if len(x.Instrs) > 0 {
+			if r, ok := x.Instrs[len(x.Instrs)-1].(*ssa.Return); ok {
+				out = append(out, r)
+			}
+		}
+		stack = append(stack, x.Succs...)
+	}
+	return out
 }
